@@ -216,6 +216,9 @@ def finish(prop, tier, seed, results, t0, *, bounds, stubs, assumptions, outside
     os.makedirs(os.path.join(VERIF, 'evidence'), exist_ok=True)
     with open(os.path.join(VERIF, 'evidence', prop + '.json'), 'w') as f:
         json.dump(ev, f, indent=1, default=str)
+    if os.environ.get('VERIF_SLOW'):
+        for r in sorted(results, key=lambda r: -r.get('wall', 0))[:6]:
+            print('  slow: %-50s %.1fs solver %.1fs paths %d' % (r.get('name'), r.get('wall', 0), r.get('solver_time', 0), r.get('paths', 0)))
     print('%s tier=%s: %d paths, %d/%d obligations discharged, %d queries, solver %.1fs, %d replays validated, wall %.1fs -> %s'
           % (prop, tier, agg['paths'], agg['discharged'], agg['obligations'], agg['queries'],
              agg['solver_time'], agg['validated'], time.time() - t0, ev['status']))
